@@ -631,7 +631,7 @@ V("C03-parseint-other-parser","C03",MB+"util.go","""	n, err := signed256.ParseDe
 		return signed256.Int{}, false
 	}
 	n, err := signed256.ParseDecimal(s)
-	return n, err == nil""",expect="silent")
+	return n, err == nil""",rule="C03.R2")
 V("C05-split-keeps-signed-zero","C05","pkg/core/object/metadata.go","""	if start == len(s) {
 		return false, "0", nil
 	}""","""	if start == len(s) {
@@ -1323,19 +1323,29 @@ V("C24-write-error-overwritten","C24","pkg/services/object/put/validation.go",""
 V("C03-lower-bound-mismatch-stops-scan","C03","pkg/core/object/metadata.go","""					switch mch {
 					case object.MatchStringNotEqual, object.MatchNumGT, object.MatchNumGE:
 						return true
+					case object.MatchCommonPrefix:
+						// matching keys do not go one after another, see prefixNeedsFullScan
+						return primPrefixFullScan || prefixNeedsFullScan(attr, val)
 					default:
 						return false
-					}""","""					if mch != object.MatchStringNotEqual && (n > 0 || mch != object.MatchNumGT) {
+					}""","""					_ = primPrefixFullScan
+					if mch != object.MatchStringNotEqual && (n > 0 || mch != object.MatchNumGT) {
 						return false
 					}
 					return true""",rule="C03.R6")
 V("C03-silent-mismatch-if-form","C03","pkg/core/object/metadata.go","""					switch mch {
 					case object.MatchStringNotEqual, object.MatchNumGT, object.MatchNumGE:
 						return true
+					case object.MatchCommonPrefix:
+						// matching keys do not go one after another, see prefixNeedsFullScan
+						return primPrefixFullScan || prefixNeedsFullScan(attr, val)
 					default:
 						return false
 					}""","""					if mch == object.MatchStringNotEqual || mch == object.MatchNumGT || mch == object.MatchNumGE {
 						return true
+					}
+					if mch == object.MatchCommonPrefix {
+						return primPrefixFullScan || prefixNeedsFullScan(attr, val)
 					}
 					return false""",expect="silent")
 V("C36-silent-inputs-cloned","C36",GL,"""	sort.Sort(fsChain)
@@ -1359,3 +1369,27 @@ V("C45-netmap-update-ends-maintenance","C45","cmd/neofs-node/netmap.go","""	c.st
 	if err != nil {
 		c.isMaintenance.Store(false)""",rule="C45.R3")
 V("C41-nil-stream-with-error","C41","pkg/local_object_storage/blobstor/fstree/head.go","""				return nil, f, io.ErrUnexpectedEOF""","""				return nil, nil, io.ErrUnexpectedEOF""",rule="C41.R4")
+V("C02-recount-counts-redundant-marked","C02","pkg/local_object_storage/metabase/counter.go","""		if k, _ := cInt.Seek(garbageKey); bytes.Equal(k, garbageKey) || inGarbage(cInt, obj) != statusAvailable {""","""		if k, _ := cInt.Seek(garbageKey); bytes.Equal(k, nil) || inGarbage(cInt, obj) != statusAvailable {""",rule="C02.R9")
+V("C02-recount-gc-only-stored","C02","pkg/local_object_storage/metabase/counter.go","""	for range iterPrefixedIDs(c, []byte{metaPrefixGarbage}, oid.ID{}) {
+		gcCounter++
+	}""","""	for obj := range iterPrefixedIDs(c, []byte{metaPrefixGarbage}, oid.ID{}) {
+		if string(getObjAttribute(cInt, obj, object.FilterPhysical)) == binPropMarker {
+			gcCounter++
+		}
+	}""",rule="C02.R10")
+V("C11-bare-file-for-buffered-entry","C11","pkg/local_object_storage/blobstor/fstree/head.go","""			rsc := &limitedFileReader{
+				ReadSeekCloser: f,
+				limit:          int64(l - uint32(size-offset)),
+			}
+""","""			rsc := io.ReadSeekCloser(f)
+			if buffered := uint32(size - offset); l > buffered {
+				rsc = &limitedFileReader{
+					ReadSeekCloser: f,
+					limit:          int64(l - buffered),
+				}
+			}
+""",rule="C11.R6")
+V("C03-cut-prefix-decoded-for-seek","C03","pkg/core/object/metadata.go","""	if !oidSorted && cursor == "" && primMatcher != object.MatchStringNotEqual && !IsIntegerSearchOp(primMatcher) &&
+		!(primMatcher == object.MatchCommonPrefix && prefixNeedsFullScan(fs[0].Header(), primVal)) {""","""	if !oidSorted && cursor == "" && primMatcher != object.MatchStringNotEqual && !IsIntegerSearchOp(primMatcher) {""",rule="C03.R7")
+V("C02-silent-recount-objectstatus","C02","pkg/local_object_storage/metabase/counter.go","bytes.Equal(k, garbageKey) || inGarbage(cInt, obj) != statusAvailable {","bytes.Equal(k, garbageKey) || objectStatus(cInt, obj, 0) != statusAvailable {",expect="silent")
+V("C42-silent-recount-objectstatus","C42","pkg/local_object_storage/metabase/counter.go","bytes.Equal(k, garbageKey) || inGarbage(cInt, obj) != statusAvailable {","bytes.Equal(k, garbageKey) || objectStatus(cInt, obj, 0) != statusAvailable {",expect="silent")
